@@ -9,7 +9,7 @@ claimed = {
    text="Mode 1 decides 'inputs never mutated': every read-only operation runs alone with a deep reflection snapshot of all shared inputs and of every package-level variable compared before, at sampled yield points during, and after. Mode 2 decides 'returns what it would return alone': 2-4 tasks of read-only operations are interleaved by a seeded cooperative scheduler (real goroutines, one baton, every preemption from the schedule tape) and each result is compared with its solo result, the snapshot at every context switch. Mode 3 (auxiliary, not deterministic) runs the same workload free on all cores under -race.",
    note="Trusted: the soundness argument 'no write to shared inputs or globals => no race between read-only calls'; blind spots of the reflection walker (closure variables, runtime pools, same-value writes) are covered only by the race-detector mode, whose interleavings are not controlled. Statement-granularity interleaving under sequential consistency."),
  "C20": dict(level="exploration", design="§4 C20", technique="deterministic simulation (history dimension): seeded operation histories against a live PolicySet with marshal/unmarshal/load 'restarts' under owned map order, refinement-checked step by step against a plain map model; short histories enumerated",
-   text="Seeded exploration of container histories (add/replace/remove/get/Map/All/collect/marshal/JSON and Cedar round trips that replace the live set/document loads) with a map model compared after every step: contents, return values, pointer identity, authorization on a request panel, lexicographic emission, ids policy0..n-1 with positions and file name after a load. All 2800 histories of length <= 4 over 7 operations are enumerated each run.",
+   text="Seeded exploration of container histories (add/replace/remove/get/Map/All/collect/marshal/JSON and Cedar round trips that replace the live set/document loads) with a map model compared after every step: contents, return values, pointer identity, authorization on a request panel, lexicographic emission, ids policy0..n-1 with positions and file name after a load. All 4680 histories of length <= 4 over 8 operations are enumerated each run.",
    note="Trusted: the map model, canonical policy text as the identity of a policy, cedar.Authorize over a PolicyMap as the reference for 'depends only on the contents'."),
  "C05": dict(level="fault_enumeration", design="§4 C05", technique="deterministic simulation: batch.Authorize under a simulated context (logical clock), failing/cancelling callback at every k, custom iterator and owned map order; oracle = the harness' own Cartesian enumeration + substitution + cedar.Authorize",
    text="For every generated scenario the batch authorizer is run fault-free against a brute-force reference (own enumeration of the product, own substitution, cedar.Authorize per element: exactly-once delivery, substituted request, decision, reason set), and then once for EVERY position k at which the callback fails or cancels the context, with the context cancelled before the call, and with cancellation at sampled instants of the logical clock (yield points inside partial evaluation). Fault positions of a scenario are enumerated, scenarios are sampled.",
